@@ -4,7 +4,7 @@ from common import *
 import pipe, gens
 from props import c03, c13
 
-RULE = ("every recorded batch of the corpus run and of the generated run, the MCS-stage reactions at thresholds {0, 0.5, 1, observed confidences and both float neighbours}, plus multi-batch runs (random batch sizes) whose merged "
+RULE = ("every recorded batch of the corpus run and of the generated run, one batch for every non-empty combination of six row classes (input-balanced, rule-based, both sides unbalanced, MCS, carbon deficit, no solution), the MCS-stage reactions at thresholds {0, 0.5, 1, observed confidences and both float neighbours}, plus multi-batch runs (random batch sizes) whose merged "
         "statistics are compared with the rows; each batch is replayed through the model inside Coq (rows + all seven counters); "
         "independent oracle recomputes every relation of the property from the returned rows.  Non-trivial: a batch with at least "
         "two different outcomes among its rows; distinct = distinct batch content.")
@@ -29,6 +29,29 @@ def relations(ctx, inputs, rows, st, case):
             ctx.fail("solved-below-attributed", case, {"stats": st, "by": dict(by)})
 
 
+CLASSES = [("input-balanced", ["CC(=O)O.CCO>>CC(=O)OCC.O", "[Na+].[Cl-]>>[Na+].[Cl-]"]),
+           ("rule-based", ["CC(=O)Cl.CN>>CC(=O)NC", "CC(=O)C>>CC(O)C"]),
+           ("both-sides-unbalanced", ["CCBr>>CCCl", "CCO.[Na]>>CC[O-].[K+]"]),
+           ("mcs", ["CCCOC(=O)C>>OC(=O)C", "CC(=O)OCC>>CCO"]),
+           ("carbon-deficit", ["C>>CC"]),
+           ("no-solution", ["CCO>>CCS", "c1ccccc1>>c1ccncc1"])]
+
+
+def composition_run(ctx):
+    import itertools
+    rng = random.Random("c18comp|%s|%s" % (ctx.seed, ctx.tier))
+    batches = []
+    for mask in range(1, 2 ** len(CLASSES)):
+        b = []
+        for i, (_, reps) in enumerate(CLASSES):
+            if mask >> i & 1:
+                b += reps if not ctx.quick() else [reps[(mask + i) % len(reps)]]
+        rng.shuffle(b)
+        batches.append(b)
+    val, _ = pipe.cached("c18comp_%s_%d" % (ctx.tier, ctx.seed), lambda: pipe.run_batches(batches))
+    return val
+
+
 def run(ctx):
     from rdkit import RDLogger
     RDLogger.DisableLog("rdApp.*")
@@ -50,6 +73,16 @@ def run(ctx):
             ctx.nontrivial.add(json.dumps([b["inputs"], x["t"]]))
         relations(ctx, b["inputs"], b["rows"], b["stats"], {"inputs": b["inputs"], "threshold": x["t"]})
         tb.append(b)
+    # batch composition: every non-empty combination of row classes as one batch (a counter computed on a shortcut path that only
+    # some compositions take -- no rule-based candidate, no MCS row, nothing unsolved -- is otherwise never looked at)
+    cb = composition_run(ctx)
+    for b in cb:
+        ctx.evaluations += 1
+        ctx.count("composition", "batches")
+        if len({(r["solved"], r["solved_by"]) for r in b["rows"]}) >= 2:
+            ctx.nontrivial.add(json.dumps(b["inputs"]))
+        relations(ctx, b["inputs"], b["rows"], b["stats"], {"inputs": b["inputs"]})
+    tb = tb + cb
     # merged statistics of multi-batch runs through the public API
     from synrbl import Balancer
     rng = random.Random("c18|%s|%s" % (ctx.seed, ctx.tier))
